@@ -94,5 +94,19 @@ impl From<u32> for Cell {
 //@use arith.fns ::core_word_into_real
 //@use arith.fns ::core_word_into_int
 
+// std: Ordering predicates (assumed)
+pub assume_specification [std::cmp::Ordering::is_lt] (o: Ordering) -> (r: bool) ensures r == (o == Ordering::Less);
+pub assume_specification [std::cmp::Ordering::is_le] (o: Ordering) -> (r: bool) ensures r == (o != Ordering::Greater);
+pub assume_specification [std::cmp::Ordering::is_gt] (o: Ordering) -> (r: bool) ensures r == (o == Ordering::Greater);
+pub assume_specification [std::cmp::Ordering::is_ge] (o: Ordering) -> (r: bool) ensures r == (o != Ordering::Less);
+pub assume_specification [std::cmp::Ordering::is_eq] (o: Ordering) -> (r: bool) ensures r == (o == Ordering::Equal);
+pub assume_specification [std::cmp::Ordering::is_ne] (o: Ordering) -> (r: bool) ensures r == (o != Ordering::Equal);
+//@use arith.fns ::load#w_cmp_lt
+//@use arith.fns ::load#w_cmp_le
+//@use arith.fns ::load#w_cmp_gt
+//@use arith.fns ::load#w_cmp_ge
+//@use arith.fns ::load#w_cmp_eq
+//@use arith.fns ::load#w_cmp_ne
+
 } // verus!
 fn main() {}
